@@ -55,7 +55,16 @@ class ConnectResponse(KNXIPBodyResponse):
             pos += self.data_endpoint.from_knx(raw[pos:])
             pos += self.crd.from_knx(raw[pos:])
         else:
-            # do not parse HPAI and CRD in case of errors - just check length
+            # devices send arbitrary (or no) HPAI and CRD along with an error status:
+            # keep them when they are well-formed, ignore them otherwise
+            data_endpoint, crd = HPAI(), ConnectResponseData()
+            try:
+                crd_pos = pos + data_endpoint.from_knx(raw[pos:])
+                crd.from_knx(raw[crd_pos:])
+            except (CouldNotParseKNXIP, IndexError, ValueError):
+                pass
+            else:
+                self.data_endpoint, self.crd = data_endpoint, crd
             pos = len(raw)
         return pos
 
